@@ -119,3 +119,41 @@ Theorem separators_exactly_between_groups :
     rev (g_out (run cfg is_match ls)) = with_breaks cfg 0 false (lines_of (run cfg is_match ls)).
 Proof. intros cfg im H ls Hne. exact (proj1 (separators_exactly_at_gaps cfg im H ls Hne)). Qed.
 Print Assumptions separators_exactly_between_groups.
+
+(* 4. the contract of find_by_line_fast is met by every matcher whose find_candidate_line obeys
+      the candidate contract of grep-matcher on whole-line buffers (cand_ok: no line before the
+      candidate's line matches; a Confirmed candidate — outside CRLF mode, where it is re-verified —
+      lies in a line that matches; a Confirmed position may point at the very end).  Hence: *)
+From RG Require Import Proofs.FindSpecProofs Model.ScriptedMatcher.
+Theorem slice_eq_ref_from_candidate_contract :
+  forall (cfg : config) (M : matcher),
+    c_binary cfg = BNone ->
+    forall s : bytes,
+    cand_ok cfg M s ->
+    slice_by_line_run cfg M (fun _ => Continue) s = RunOk (grep_ref cfg (m_is_match M) s).
+Proof.
+  intros cfg M Hb s Hc. apply slice_eq_ref_proof; [exact Hb|]. apply find_spec_of_cand_proof. exact Hc.
+Qed.
+Print Assumptions slice_eq_ref_from_candidate_contract.
+
+(* non-vacuity: the contract is satisfiable (a matcher that never matches), and a concrete fast-path
+   run with a literal-prefiltering matcher equals the reference *)
+Example cand_ok_satisfiable : forall cfg s,
+  cand_ok cfg {| m_is_match := fun _ => false; m_find_candidate := fun _ => None; m_line_term := Some (c_lt cfg);
+                 m_nonmatching := fun _ => false; m_find_at := fun _ _ => None |} s.
+Proof.
+  intros cfg s p ls Hat Hne. cbn. clear. induction ls; constructor; auto.
+Qed.
+
+Example fast_path_example :
+  let cfg := {| c_lt := LTByte 10; c_invert := false; c_after := 1; c_before := 1; c_passthru := false;
+                c_line_number := true; c_stop_on_nonmatch := false; c_binary := BNone; c_multi_line := false |} in
+  let M := scripted cfg
+             [ {| n_anch := false; n_bytes := [98]%N; n_real := true |} ]
+             true 1%N in
+  let s := [97; 10; 120; 10; 98; 10; 121; 10; 122; 10]%N in
+  slice_by_line_run cfg M (fun _ => Continue) s = RunOk (grep_ref cfg (m_is_match M) s)
+  /\ grep_ref cfg (m_is_match M) s =
+     [EBegin; EContext CBefore 2 (Some 2) [120; 10]%N; EMatched 4 (Some 3) [98; 10]%N;
+      EContext CAfter 6 (Some 4) [121; 10]%N; EFinish 10 None].
+Proof. vm_compute. split; reflexivity. Qed.
